@@ -30,7 +30,7 @@ func runC11(c *Ctx) {
 	p := c.Progs["mod"]
 	c.Rule("C11.E", "encoder/decoder agreement between poll replies and data posts", 7)
 	c.Rule("C11.Q", "messages move only through two FIFO channels with one producer/consumer goroutine", 5)
-	c.Rule("C11.O", "order and completeness on both endpoints; request bodies are read whole", 15)
+	c.Rule("C11.O", "order and completeness on both endpoints; request bodies are read whole; sessions forgotten only after delivery", 19)
 	c.Rule("C11.J", "header injection only adds missing keys", 7)
 	c.Rule("C11.V", "the protocol version is read from a request header nothing has edited: the handshake header is a filtered copy (= C09.N)", 1)
 	c.Borrow(runC09, "C09.N", "C11.V", func(k string) bool { return strings.HasPrefix(k, "stripWSHeader") })
@@ -175,6 +175,12 @@ func runC11(c *Ctx) {
 	// ---- C11.O
 	rulePollErrorOnlyWhenDrained(c, p, "C11.O")
 	ruleShimBodiesReadWhole(c, p, "C11.O")
+	// a session is forgotten only by close, or by the poll that has delivered what was received
+	// (= C12.U): a data or poll call that drops the session as soon as its context is done
+	// drops the messages still buffered for the client
+	c.Borrow(runC12, "C12.U", "C11.O", func(k string) bool {
+		return strings.HasPrefix(k, "forget-site") || strings.HasPrefix(k, "data:may-forget") || strings.HasPrefix(k, "poll:delivers") || strings.HasPrefix(k, "poll:error-only")
+	})
 	se := resolveShimEndpoints(c, p, "C11.O")
 	if se != nil && se.ByName["data"] != nil {
 		d := se.ByName["data"]
@@ -444,6 +450,33 @@ func runC11(c *Ctx) {
 				}}).FromInstr(call)
 				if h != nil {
 					bad = "after a message was received, the return at " + p.Pos(h.Pos()) + " discards the accumulated messages (nil slice or an error): messages already taken from the queue are lost when the backend closes"
+				}
+			}
+		}
+		// … the same holds for whatever else is serialised into the slice (a message kept from an
+		// earlier poll), and a message taken from the queue is not parked in the connection for a
+		// later call: the early exits of the next call (time-out, closed queue) would drop it
+		for _, call := range Calls(rs, "(*"+pkg+".message).Serialize") {
+			h, _ := (&Walk{Target: func(i ssa.Instruction) bool {
+				r, isR := i.(*ssa.Return)
+				if !isR || (rs.Recover != nil && i.Block() == rs.Recover) {
+					return false
+				}
+				return IsNilConst(ReturnValue(r, 0)) || !IsNilConst(ReturnValue(r, 1))
+			}}).FromInstr(call)
+			if h != nil && bad == "" {
+				bad = "after a message was serialised at " + p.Pos(call.Pos()) + ", the return at " + p.Pos(h.Pos()) + " discards the accumulated messages (nil slice or an error)"
+			}
+		}
+		for _, op := range ChanOpsOf(rs) {
+			if op.Kind != "recv" || op.Val == nil || NamedTypeRel(op.Val.Type()) != "agent/websockets.message" {
+				continue
+			}
+			for _, u := range Refs(op.Val) {
+				if st, isSt := u.(*ssa.Store); isSt && st.Val == op.Val {
+					if _, _, isField := FieldAddrOf(st.Addr); isField {
+						bad = "a message taken from the queue is stored into " + PathOf(st.Addr) + " at " + p.Pos(st.Pos()) + " instead of being returned: it is lost when the next call times out or finds the queue closed"
+					}
 				}
 			}
 		}
